@@ -364,3 +364,32 @@ Proof.
   split; [reflexivity|]. split; [reflexivity|].
   intros [n [bytes [a H]]]. injection H as _ Hs _ _. discriminate Hs.
 Qed.
+
+(** * 8. The compact literals of the session cases (Model/RegistersCases.v) lose nothing:
+      [enc_bytes] determines length and content of a byte string. *)
+From CSS Require Import Model.RegistersCases.
+
+Lemma enc_bytes_pos l : 1 <= enc_bytes l.
+Proof.
+  unfold enc_bytes. induction l as [|b t IH]; cbn [app le_value]; lia.
+Qed.
+
+Theorem enc_bytes_inj : forall l l',
+  (forall b, In b l -> b < 256) -> (forall b, In b l' -> b < 256) ->
+  enc_bytes l = enc_bytes l' -> l = l'.
+Proof.
+  induction l as [|b t IH]; intros [|b' t'] Hl Hl' H.
+  - reflexivity.
+  - exfalso. pose proof (enc_bytes_pos t') as Hp. unfold enc_bytes in *. cbn [app le_value] in H.
+    cbn [app le_value] in Hp. lia.
+  - exfalso. pose proof (enc_bytes_pos t) as Hp. unfold enc_bytes in *. cbn [app le_value] in H.
+    cbn [app le_value] in Hp. lia.
+  - assert (Hb : b < 256) by (apply Hl; left; reflexivity).
+    assert (Hb' : b' < 256) by (apply Hl'; left; reflexivity).
+    unfold enc_bytes in H. cbn [app le_value] in H.
+    assert (b = b' /\ le_value (t ++ [1]) = le_value (t' ++ [1])) as [-> Ht] by lia.
+    f_equal. apply IH.
+    + intros x Hx. apply Hl. right. exact Hx.
+    + intros x Hx. apply Hl'. right. exact Hx.
+    + exact Ht.
+Qed.
